@@ -1,6 +1,7 @@
 package main
 
 import (
+	"unicode"
 	"encoding/hex"
 	"encoding/json"
 	"sort"
@@ -291,6 +292,40 @@ func makeIntrinsics() map[string]intrinsic {
 		}
 		return StrConst(strings.Repeat(s, n))
 	}
+	// ---- unicode predicates on a (possibly symbolic) rune: the standard library's own range tables as a disjunction ----
+	tableTerm := func(tab *unicode.RangeTable, r *Term) *Term {
+		res := False
+		rng := func(lo, hi, stride uint32) {
+			t := And(BVCmp("bvuge", r, BVConstI(int64(lo), 32)), BVCmp("bvule", r, BVConstI(int64(hi), 32)))
+			if stride > 1 {
+				t = And(t, Eq(BVBin("bvurem", BVBin("bvsub", r, BVConstI(int64(lo), 32)), BVConstI(int64(stride), 32)), BVConstI(0, 32)))
+			}
+			res = Or(res, t)
+		}
+		for _, x := range tab.R16 {
+			rng(uint32(x.Lo), uint32(x.Hi), uint32(x.Stride))
+		}
+		for _, x := range tab.R32 {
+			rng(x.Lo, x.Hi, x.Stride)
+		}
+		return res
+	}
+	uni := func(name string, concrete func(rune) bool, tab *unicode.RangeTable) {
+		m["unicode."+name] = func(st *State, fr *frame, a []value, cc *ssa.CallCommon) value {
+			r := a[0].(*Term)
+			if r.IsConst() {
+				return BoolConst(concrete(rune(r.Signed().Int64())))
+			}
+			return tableTerm(tab, r)
+		}
+	}
+	uni("IsDigit", unicode.IsDigit, unicode.Digit)
+	uni("IsNumber", unicode.IsNumber, unicode.Number)
+	uni("IsLetter", unicode.IsLetter, unicode.Letter)
+	uni("IsUpper", unicode.IsUpper, unicode.Upper)
+	uni("IsLower", unicode.IsLower, unicode.Lower)
+	uni("IsSpace", unicode.IsSpace, unicode.White_Space)
+	uni("IsPunct", unicode.IsPunct, unicode.Punct)
 	m[V+"Aborts"] = func(st *State, fr *frame, a []value, cc *ssa.CallCommon) value {
 		cl := a[0].(*closure)
 		aborted := false
